@@ -1001,7 +1001,9 @@ def remote_case(ctx, rep, case):
                 report(rep, "wrong-target:commit:remote-derived:hash", "a remote-derived commit link does not end with exactly the hash it wraps", what)
                 return
             infix = FORGES.get(case["host"])
-            good = (lpath == case["path"] + infix + t) if infix else (lpath.startswith(case["path"] + "/") and len(lpath) > len(case["path"]) + 1 + len(t))
+            # sourcehut repository pages have no `.git` form: whether a `.git` of the origin is kept there is not the property's matter
+            paths = [case["path"]] + ([case["path"] + ".git"] if case["dotgit"] and case["host"] == "git.sr.ht" else [])
+            good = any((lpath == p + infix + t) if infix else (lpath.startswith(p + "/") and len(lpath) > len(p) + 1 + len(t)) for p in paths)
             if not good:
                 report(rep, "wrong-target:commit:remote-derived:path-differs" + (":port" if case["port"] else ""),
                        "a commit link is not under the repository path the origin remote names (+ the forge's commit path)",
